@@ -1,0 +1,193 @@
+//! Verification hooks (cargo feature `verif-hooks`, off by default).
+//!
+//! A thread-local recorder that stays dormant unless an external harness arms it.
+//! When armed it collects
+//! * a snapshot of the matcher state (pools, acquisition lots, outstanding 30-day
+//!   reservations) at the end of every processed day and at the end of the
+//!   cost-offset pre-pass, and
+//! * the order in which `HashMap`-backed collections are drained before they are sorted,
+//!   optionally permuting that order with a seeded shuffle (any order is a legal
+//!   `HashMap` iteration order, so code that sorts afterwards is unaffected).
+//!
+//! Nothing here changes behaviour while the recorder is not armed.
+
+use crate::matcher::AcquisitionLedger;
+use crate::models::Section104Holding;
+use chrono::NaiveDate;
+use rust_decimal::Decimal;
+use serde_json::{Value, json};
+use std::cell::RefCell;
+use std::collections::HashMap;
+
+#[derive(Default)]
+struct Recorder {
+    armed: bool,
+    shuffle_seed: Option<u64>,
+    snapshots: Vec<Value>,
+    orders: Vec<Value>,
+}
+
+thread_local! {
+    static RECORDER: RefCell<Recorder> = RefCell::new(Recorder::default());
+}
+
+/// Everything recorded between [`arm`] and [`disarm`].
+#[derive(Debug, Default)]
+pub struct Recording {
+    pub snapshots: Vec<Value>,
+    pub orders: Vec<Value>,
+}
+
+/// Start recording on this thread. With `shuffle_seed = Some(s)` every drained
+/// collection is permuted (seeded by `s` and the site name) before it is sorted.
+pub fn arm(shuffle_seed: Option<u64>) {
+    RECORDER.with(|r| {
+        let mut r = r.borrow_mut();
+        r.armed = true;
+        r.shuffle_seed = shuffle_seed;
+        r.snapshots.clear();
+        r.orders.clear();
+    });
+}
+
+/// Stop recording on this thread and return what was collected.
+pub fn disarm() -> Recording {
+    RECORDER.with(|r| {
+        let mut r = r.borrow_mut();
+        r.armed = false;
+        r.shuffle_seed = None;
+        Recording {
+            snapshots: std::mem::take(&mut r.snapshots),
+            orders: std::mem::take(&mut r.orders),
+        }
+    })
+}
+
+fn is_armed() -> bool {
+    RECORDER.with(|r| r.borrow().armed)
+}
+
+fn lots_value(ledgers: &HashMap<String, AcquisitionLedger>) -> Value {
+    let mut tickers: Vec<&String> = ledgers.keys().collect();
+    tickers.sort();
+    let mut out = serde_json::Map::new();
+    for ticker in tickers {
+        let Some(ledger) = ledgers.get(ticker) else {
+            continue;
+        };
+        let lots: Vec<Value> = ledger
+            .lots()
+            .iter()
+            .map(|lot| {
+                json!({
+                    "idx": lot.transaction_idx,
+                    "date": lot.date.to_string(),
+                    "original": lot.original_amount.to_string(),
+                    "price": lot.price.to_string(),
+                    "expenses": lot.expenses.to_string(),
+                    "cost_offset": lot.cost_offset.to_string(),
+                    "consumed": lot.consumed.to_string(),
+                    "reserved": lot.reserved.to_string(),
+                    "in_pool": lot.in_pool.to_string(),
+                })
+            })
+            .collect();
+        out.insert(ticker.clone(), Value::Array(lots));
+    }
+    Value::Object(out)
+}
+
+/// Matcher state at the end of a processed day.
+pub(crate) fn snapshot_day(
+    date: NaiveDate,
+    ledgers: &HashMap<String, AcquisitionLedger>,
+    pools: &HashMap<String, Section104Holding>,
+    future_consumption: &HashMap<usize, Decimal>,
+    same_day_reservations: &HashMap<(NaiveDate, String), Decimal>,
+) {
+    if !is_armed() {
+        return;
+    }
+    let mut pool_keys: Vec<&String> = pools.keys().collect();
+    pool_keys.sort();
+    let mut pools_out = serde_json::Map::new();
+    for ticker in pool_keys {
+        if let Some(pool) = pools.get(ticker) {
+            pools_out.insert(
+                ticker.clone(),
+                json!({
+                    "quantity": pool.quantity.to_string(),
+                    "total_cost": pool.total_cost.to_string(),
+                }),
+            );
+        }
+    }
+    let mut future: Vec<(usize, String)> = future_consumption
+        .iter()
+        .map(|(idx, qty)| (*idx, qty.to_string()))
+        .collect();
+    future.sort();
+    let mut reservations: Vec<(String, String, String)> = same_day_reservations
+        .iter()
+        .map(|((d, t), qty)| (d.to_string(), t.clone(), qty.to_string()))
+        .collect();
+    reservations.sort();
+    let snapshot = json!({
+        "phase": "day",
+        "date": date.to_string(),
+        "pools": Value::Object(pools_out),
+        "lots": lots_value(ledgers),
+        "future_consumption": future,
+        "same_day_reservations": reservations,
+    });
+    RECORDER.with(|r| r.borrow_mut().snapshots.push(snapshot));
+}
+
+/// Lots of the cost-offset pre-pass once it has seen the whole timeline.
+pub(crate) fn snapshot_prepass(ledgers: &HashMap<String, AcquisitionLedger>) {
+    if !is_armed() {
+        return;
+    }
+    let snapshot = json!({
+        "phase": "prepass",
+        "lots": lots_value(ledgers),
+    });
+    RECORDER.with(|r| r.borrow_mut().snapshots.push(snapshot));
+}
+
+fn next_u64(state: &mut u64) -> u64 {
+    // splitmix64
+    *state = state.wrapping_add(0x9E37_79B9_7F4A_7C15);
+    let mut z = *state;
+    z = (z ^ (z >> 30)).wrapping_mul(0xBF58_476D_1CE4_E5B9);
+    z = (z ^ (z >> 27)).wrapping_mul(0x94D0_49BB_1331_11EB);
+    z ^ (z >> 31)
+}
+
+/// Record the pre-sort order of a collection drained from a `HashMap` and, if a shuffle
+/// seed is armed, permute it. Call immediately before the sort that canonicalises it.
+pub(crate) fn drained<T>(site: &'static str, items: &mut [T], key: impl Fn(&T) -> String) {
+    if !is_armed() {
+        return;
+    }
+    let seed = RECORDER.with(|r| r.borrow().shuffle_seed);
+    let natural: Vec<String> = items.iter().map(&key).collect();
+    if let Some(seed) = seed {
+        let mut state = seed;
+        for b in site.bytes() {
+            state = state.wrapping_mul(0x0100_0000_01B3).wrapping_add(u64::from(b));
+        }
+        for i in (1..items.len()).rev() {
+            let j = (next_u64(&mut state) % (i as u64 + 1)) as usize;
+            items.swap(i, j);
+        }
+    }
+    let used: Vec<String> = items.iter().map(&key).collect();
+    RECORDER.with(|r| {
+        r.borrow_mut().orders.push(json!({
+            "site": site,
+            "natural": natural,
+            "used": used,
+        }));
+    });
+}
